@@ -54,7 +54,7 @@ type decoder struct {
 
 type decEvents struct {
 	header  func(kind byte, id, val uint64, length int) // complete header (for data: before payload)
-	payload func(id uint64, n int)                       // n more payload bytes of the current data message
+	payload func(id uint64, n int)                      // n more payload bytes of the current data message
 	bad     func(why string)
 }
 
